@@ -124,3 +124,18 @@ CHECKS["C06"] = (
     "Trusted: torch's threaded process group as a faithful stand-in for collectives semantics (cross-checked by gloo runs in the thorough tier); per-thread get_device_mesh cache models per-process state; sleeps are injected only at the collective / group-creation wrappers.",
     "DESIGN.md 2 E5, 3 C06",
 )
+
+CHECKS["C07"] = (
+    "exploration",
+    "runtime monitoring on simulated ranks: real FSDP / HSDP distributors inside the optimizer, shards and metadata built by the harness, compared after every step with a serial twin run on the sub-tensors given by an independent slab DP; replica, ledger and deadlock monitors for HSDP",
+    "200 (quick) / 2500 x 2 interleavings (thorough) sharded worlds: original shapes of order 1..4, flat-parameter sharding over 1..8 shard ranks (mid-row cuts, empty shards) or arbitrary cuts, HSDP on R x S meshes with every divisor num_trainers_per_group, all communication settings, generated optimizer configurations, absent gradients. Per rank and step every recovered sub-tensor of every shard must equal the twin parameter (bitwise; with reduced-precision communication within 4 u_comm of the communicated quantity against a re-synchronised twin); shards without gradient must stay bit-identical; HSDP replicas bit-identical; collective ledger identical across ranks; logical deadlock detector. Because the slabs partition each shard and shards partition each parameter, equality with the twin implies every element is updated exactly once. Sampled.",
+    "Trusted: vf/blocking.one_min_decomposition (validated exhaustively against both recovery copies in C15), threaded process group, harness-built FSDPParameterMetadata. Real FSDP wrapping on GPU is not reachable.",
+    "DESIGN.md 3 C07",
+)
+CHECKS["C08"] = (
+    "exploration",
+    "runtime monitoring on simulated ranks: real FullyShard / HybridShard distributors on dim-0 sharded DTensor parameters, compared after every step with a serial twin over the non-empty local tensors; replica, ledger and deadlock monitors for HybridShard",
+    "200 (quick) / 2500 x 2 (thorough) worlds: 1-D meshes of 1..8 ranks and R x S meshes, torch.chunk row distribution (ranks with zero rows, uneven rows), parameters with empty local shards anywhere in the group, absent DTensor gradients, num_trainers_per_group dividing R, all communication settings, generated optimizer configurations. Per rank and step p.to_local() must equal the twin parameter (bitwise; reduced precision within 4 u_comm of the communicated quantity against a re-synchronised twin), locally empty or gradient-less parameters must not change, HybridShard replicas bit-identical, ledger identical across ranks, no stuck rank. Sampled.",
+    "Trusted: DTensor.from_local construction as a stand-in for fully_shard's parameters; threaded process group.",
+    "DESIGN.md 3 C08",
+)
